@@ -523,3 +523,134 @@ Lemma bg_loop_QR lo hi : forall fuel val stream,
 Proof. induction fuel as [|f IH]; intros val stream; cbn [bg_loop]; [reflexivity|].
   rewrite <- all_inside_QR. destruct (all_inside QO lo hi val); [reflexivity|].
   rewrite <- refill_QR. destruct (refill QO lo hi val stream) as [[val' s']|]; cbn [option_map fst snd]; [apply IH|reflexivity]. Qed.
+
+(** * base samplers as functions of the generator's standard draws *)
+Lemma s2pi_pos : 0 < sqrt (2 * PI).
+Proof. apply sqrt_lt_R0. pose proof PI_RGT_0. lra. Qed.
+Lemma uniform_sample_in_support a b u : a < b -> 0 <= u < 1 ->
+  a <= uniform_sample RO a b u < b /\ in_support (Fin a) (Fin b) (uniform_sample RO a b u).
+Proof. intros H Hu. unfold uniform_sample, in_support. ro. repeat split; nra. Qed.
+Lemma gaussian_sample_standardises mu sd z : 0 < sd -> (gaussian_sample RO mu sd z - mu) / sd = z.
+Proof. unfold gaussian_sample. ro. intros. field. lra. Qed.
+
+(** * scale / unscale of constructed priors (the scale factor is never 0) *)
+Lemma ctor_scale_inverse lnf s :
+  (forall lo hi g u x, uniform_ctor RO lnf lo hi g = Ok u ->
+     unscale RO (u_scale u) (scale RO (u_scale u) x) = x /\ scale RO (u_scale u) (unscale RO (u_scale u) x) = x) /\
+  (forall mu sd g x, gaussian_ctor RO lnf s mu sd = Ok g ->
+     unscale RO (g_scale g) (scale RO (g_scale g) x) = x /\ scale RO (g_scale g) (unscale RO (g_scale g) x) = x) /\
+  (forall mu sd lo hi b x, bgaussian_ctor RO lnf s mu sd lo hi = Ok b ->
+     unscale RO (g_scale (bg_g b)) (scale RO (g_scale (bg_g b)) x) = x /\
+     scale RO (g_scale (bg_g b)) (unscale RO (g_scale (bg_g b)) x) = x).
+Proof. repeat split; intros.
+  1,2: apply scale_unscale; pose proof (uniform_scale_pos _ _ _ _ _ H); lra.
+  1,2: apply scale_unscale; apply gaussian_ctor_ok in H; lra.
+  1,2: apply scale_unscale; apply bgaussian_ctor_ok in H; destruct H as (_ & _ & _ & _ & H);
+       apply gaussian_ctor_ok in H; lra. Qed.
+(** the scale factors themselves, as the constructors compute them *)
+Lemma scale_factor_values lnf s :
+  (forall lo hi g u, uniform_ctor RO lnf lo hi g = Ok u ->
+     u_scale u = if Rlt_dec (eps12 RO) (Rabs (u_guess u)) then Rabs (u_guess u)
+                 else match interval RO lo hi with Some w => w / 10 | None => 1 end) /\
+  (forall mu sd g, gaussian_ctor RO lnf s mu sd = Ok g ->
+     g_scale g = if Rlt_dec (eps12 RO) (Rabs mu) then Rabs mu else sd).
+Proof. split; intros.
+  - apply uniform_ctor_ok in H. destruct H as (_ & _ & _ & _ & _ & -> & _). unfold scale_of. rewrite tabs_abs. ro.
+    unfold Rltb. destruct (Rlt_dec (eps12 RO) (Rabs (u_guess u))); [reflexivity|]. destruct (interval RO lo hi); reflexivity.
+  - unfold gaussian_ctor in H. destruct (leb RO sd (zero RO)); [discriminate|]. injection H as <-. cbn [g_scale].
+    rewrite tabs_abs. unfold eps12. ro. unfold Rltb. destruct (Rlt_dec _ (Rabs mu)); reflexivity. Qed.
+
+(** * closed forms (used by the interval-enclosure correspondence and as the textbook densities) *)
+Lemma gaussian_lnprob_closed s mu sd g p : gaussian_ctor RO ln s mu sd = Ok g ->
+  gaussian_lnprob RO g p = - ln (sd * s) - (p - mu) * (p - mu) / (2 * (sd * sd)).
+Proof. intros H. apply gaussian_ctor_ok in H. destruct H as (_ & Hm & Hs & Hn & _).
+  unfold gaussian_lnprob, two. rewrite Hm, Hs, Hn. ro. reflexivity. Qed.
+Lemma gaussian_prob_closed lnf s mu sd g p : gaussian_ctor RO lnf s mu sd = Ok g ->
+  gaussian_prob RO exp s g p = exp (- (((p - mu) / sd) * ((p - mu) / sd)) / 2) / (s * sd).
+Proof. intros H. apply gaussian_ctor_ok in H. destruct H as (_ & Hm & Hs & _).
+  unfold gaussian_prob, two. rewrite Hm, Hs. ro. reflexivity. Qed.
+Lemma uniform_lnprob_inside a b g u p : uniform_ctor RO ln (Fin a) (Fin b) g = Ok u -> a <= p <= b ->
+  uniform_lnprob RO u p = Some (ln (1 / (b - a))).
+Proof. intros H Hp. pose proof (uniform_ctor_ok _ _ _ _ _ H) as (He & Hl & Hh & _ & _ & _ & Hlnp).
+  unfold uniform_lnprob. rewrite Hl, Hh.
+  assert (E : outside RO (Fin a) (Fin b) p = false) by (apply outside_false; unfold in_support; lra).
+  rewrite E, Hlnp. reflexivity. Qed.
+(** the Gaussian density is the textbook one *)
+Lemma gaussian_prob_textbook mu sd g p : gaussian_ctor RO ln (sqrt (2 * PI)) mu sd = Ok g ->
+  gaussian_prob RO exp (sqrt (2 * PI)) g p = / (sd * sqrt (2 * PI)) * exp (- ((p - mu) ^ 2) / (2 * sd ^ 2)).
+Proof. intros H. rewrite (gaussian_prob_closed _ _ _ _ _ _ H). apply gaussian_ctor_ok in H. destruct H as (Hsd & _).
+  pose proof s2pi_pos. unfold Rdiv. rewrite Rmult_comm. f_equal; [f_equal; ring|]. f_equal. field. lra. Qed.
+
+(** * the property's clauses, collected *)
+Lemma exp_lnprob_all :
+  (forall lo hi g u p, uniform_ctor RO ln lo hi g = Ok u -> interval RO lo hi <> None ->
+     exp_e (uniform_lnprob RO u p) = uniform_prob RO u p) /\
+  (forall mu sd g p, gaussian_ctor RO ln (sqrt (2 * PI)) mu sd = Ok g ->
+     exp (gaussian_lnprob RO g p) = gaussian_prob RO exp (sqrt (2 * PI)) g p) /\
+  (forall mu sd lo hi b p, bgaussian_ctor RO ln (sqrt (2 * PI)) mu sd lo hi = Ok b ->
+     exp_e (bgaussian_lnprob RO b p) = bgaussian_prob RO exp (sqrt (2 * PI)) b p).
+Proof. repeat split; intros.
+  - eapply uniform_exp_lnprob; eauto.
+  - eapply gaussian_exp_lnprob; [apply s2pi_pos|eauto].
+  - eapply bgaussian_exp_lnprob; [apply s2pi_pos|eauto]. Qed.
+Lemma zero_outside_all expf s :
+  (forall u p, ~ in_support (u_lo u) (u_hi u) p -> uniform_prob RO u p = 0 /\ uniform_lnprob RO u p = None) /\
+  (forall b p, ~ in_support (bg_lo b) (bg_hi b) p ->
+     bgaussian_prob RO expf s b p = 0 /\ bgaussian_lnprob RO b p = None).
+Proof. split; intros; [apply uniform_zero_outside|apply bgaussian_zero_outside]; assumption. Qed.
+Lemma guess_in_support_all lnf s :
+  (forall lo hi g u, uniform_ctor RO lnf lo hi g = Ok u -> in_support (u_lo u) (u_hi u) (u_guess u)) /\
+  (forall mu sd lo hi b, bgaussian_ctor RO lnf s mu sd lo hi = Ok b ->
+     in_support (bg_lo b) (bg_hi b) (g_mu (bg_g b))).
+Proof. split; intros; [eapply uniform_guess_in_support|eapply bgaussian_guess_in_support]; eauto. Qed.
+Lemma ctor_rejects_all lnf s :
+  (forall lo hi g, uniform_ctor RO lnf lo hi g = Err ParamSpec <->
+     (~ elt lo hi \/ match g with Some x => ~ in_support lo hi x | None => False end)) /\
+  (forall mu sd, gaussian_ctor RO lnf s mu sd = Err ParamSpec <-> sd <= 0) /\
+  (forall mu sd lo hi, bgaussian_ctor RO lnf s mu sd lo hi = Err ParamSpec <->
+     (~ in_support lo hi mu \/ ebound_eqb RO lo hi = true \/ sd <= 0)).
+Proof. split; [|split]; intros;
+  [apply uniform_ctor_rejects_iff|apply gaussian_ctor_rejects_iff|apply bgaussian_ctor_rejects_iff]. Qed.
+Lemma add0_mul1_all (e : pexpr R) : p_add RO e (ONum 0) = Ok e /\ p_mul RO e (ONum 1) = Ok e.
+Proof. split; [apply add0_identity|apply mul1_identity]. Qed.
+
+(** sample(n) of whatever an operator expression builds: entry k = the expression on the k-th
+    entries of the base draws *)
+Lemma samplen_elab pw tr n (s : sexpr R) e draws : elab RO pw tr s = Ok e ->
+  Forall (fun d => length d = n) draws ->
+  length (fst (samplen RO pw tr n e draws)) = n /\
+  forall k, (k < n)%nat ->
+    nth k (fst (samplen RO pw tr n e draws)) 0 = fst (denote RO pw tr (next_draw 0) s (col k draws)).
+Proof. intros H HF. pose proof (samplen_spec pw tr n e draws HF) as P.
+  destruct (samplen RO pw tr n e draws) as [r rest]. destruct P as (L & _ & P). split; [exact L|].
+  intros k Hk. cbn [fst]. rewrite <- (sample_elab pw tr s e _ H). rewrite (P k Hk). reflexivity. Qed.
+
+Lemma bg_sample_QR lo hi n stream :
+  option_map (map Q2R) (bg_sample QO lo hi false n stream) =
+  bg_sample RO (eb2r lo) (eb2r hi) false n (map Q2R stream).
+Proof. unfold bg_sample. rewrite map_length, firstn_map, skipn_map. apply bg_loop_QR. Qed.
+
+(** * enclosure entry points: the correspondence check states its numeric goals on the model
+    itself and reduces them by these lemmas to closed real expressions for [interval] *)
+Lemma gaussian_lnprob_enclosure mu sd p y tol : 0 < sd ->
+  Rabs ((- ln (sd * sqrt (2 * PI)) - (p - mu) * (p - mu) / (2 * (sd * sd))) - y) <= tol ->
+  exists g, gaussian_ctor RO ln (sqrt (2 * PI)) mu sd = Ok g /\ Rabs (gaussian_lnprob RO g p - y) <= tol.
+Proof. intros Hsd H. destruct (gaussian_ctor RO ln (sqrt (2 * PI)) mu sd) as [g|e] eqn:E.
+  - exists g. split; [reflexivity|]. rewrite (gaussian_lnprob_closed _ _ _ _ p E). exact H.
+  - destruct e; unfold gaussian_ctor in E; destruct (leb RO sd (zero RO)) eqn:E3; try discriminate.
+    ro. apply Rleb_true in E3. lra. Qed.
+Lemma gaussian_prob_enclosure mu sd p y tol : 0 < sd ->
+  Rabs (exp (- (((p - mu) / sd) * ((p - mu) / sd)) / 2) / (sqrt (2 * PI) * sd) - y) <= tol ->
+  exists g, gaussian_ctor RO ln (sqrt (2 * PI)) mu sd = Ok g /\
+            Rabs (gaussian_prob RO exp (sqrt (2 * PI)) g p - y) <= tol.
+Proof. intros Hsd H. destruct (gaussian_ctor RO ln (sqrt (2 * PI)) mu sd) as [g|e] eqn:E.
+  - exists g. split; [reflexivity|]. rewrite (gaussian_prob_closed _ _ _ _ _ p E). exact H.
+  - destruct e; unfold gaussian_ctor in E; destruct (leb RO sd (zero RO)) eqn:E3; try discriminate.
+    ro. apply Rleb_true in E3. lra. Qed.
+Lemma uniform_lnprob_enclosure a b p y tol : a < b -> a <= p <= b ->
+  Rabs (ln (1 / (b - a)) - y) <= tol ->
+  exists u, uniform_ctor RO ln (Fin a) (Fin b) None = Ok u /\
+            match uniform_lnprob RO u p with Some l => Rabs (l - y) <= tol | None => False end.
+Proof. intros Hab Hp H. destruct (proj2 (uniform_ctor_accepts_iff ln (Fin a) (Fin b) None)) as [u Hu].
+  { split; [exact Hab|exact I]. }
+  exists u. split; [exact Hu|]. rewrite (uniform_lnprob_inside _ _ _ _ _ Hu Hp). exact H. Qed.
